@@ -195,6 +195,10 @@ class Epoch:
             ch = sl['chains'][act['m'] - 1]
             self.task(ch, act['n']).force(delete_data=act['del'])
             return out
+        if name == 'Reset':
+            ch = sl['chains'][act['m'] - 1]
+            self.task(ch, act['n']).reset_data()
+            return out
         if name == 'ChainForce':
             ch = sl['chains'][act['m'] - 1]
             names = sorted(act['T'])
